@@ -112,3 +112,26 @@ Example tidx_flat_order_witness :
   wf_counts m /\ num_tiles m = 18 /\
   map (flat_tile_idx m) (tidx m) = map (@Ok Z) (CogLayout.zrange 18).
 Proof. cbv zeta. split; [unfold wf_counts; cbn; lia|]. split; vm_compute; reflexivity. Qed.
+
+(** per-plane stream ([CogMeta.tidx(sample_idx=s)], what the dask writer iterates for one
+    band of a SYX cube): plane [s] occupies the contiguous flat slots
+    [s*ny*nx .. (s+1)*ny*nx) in order *)
+Lemma tidx_plane_flat_order m s : wf_counts m -> 0 <= s < num_planes m ->
+  map (flat_tile_idx m) (tidx_plane m s) =
+  map (fun j => Ok (s * (fst (chunked m) * snd (chunked m)) + j))
+      (CogLayout.zrange (fst (chunked m) * snd (chunked m))).
+Proof.
+  intros (Hs & Hy & Hx) Hs'.
+  unfold tidx_plane.
+  destruct (chunked m) as [ny nx] eqn:Ec. cbn [fst snd] in *.
+  rewrite <- (czrange_grid ny nx) by lia.
+  rewrite !map_flat_map. apply flat_map_ext_in. intros y Hy'.
+  apply czrange_In in Hy'.
+  rewrite !map_map. apply map_ext_in. intros x Hx'.
+  apply czrange_In in Hx'.
+  unfold flat_tile_idx. rewrite Ec.
+  destruct (s <? 0) eqn:?; [lia|]. destruct (s >=? num_planes m) eqn:?; [lia|].
+  destruct (y <? 0) eqn:?; [lia|]. destruct (y >=? ny) eqn:?; [lia|].
+  destruct (x <? 0) eqn:?; [lia|]. destruct (x >=? nx) eqn:?; [lia|].
+  cbn [orb]. f_equal. ring.
+Qed.
